@@ -55,12 +55,13 @@ for _k, _v in list(_core._PATCH_REGISTRATIONS.items()):
 FIXES = ['CrossHair relib._search corrected to try the empty match at end of string (engine/chfix.py)']
 
 
-# 2. opcode_intercept: `concrete_list[sym_a:sym_b]` is modelled as a lazy SliceView over the LIVE list object. Python copies;
-#    code such as `asts = body[start:stop]; del body[start:stop]; asts[-1]` (pfst's _cut_or_copy_asts) then sees the view
-#    change under its feet (spurious IndexError / wrong elements). Fixed: the view is taken over a snapshot of the list.
+# 2. opcode_intercept: `concrete_list[sym_a:sym_b]` is modelled as a lazy SliceView over the LIVE list object, wrapped in a
+#    SymbolicList. Python copies into a real list. Code such as `asts = body[start:stop]; del body[start:stop]; asts[-1]`
+#    (pfst's _cut_or_copy_asts) then sees the view change under its feet, and the SymbolicList object ends up stored inside
+#    C-level ast nodes. Fixed: for a CONCRETE list the symbolic bounds are realised and the native slice is taken (the bounds
+#    have been clipped to 0..len by then, so this is a finite case split, and the result is a genuine list).
 from crosshair import opcode_intercept as _oi          # noqa: E402
-from crosshair.libimpl.builtinslib import SymbolicInt as _SymbolicInt, SymbolicList as _SymbolicList   # noqa: E402
-from crosshair.simplestructs import SliceView as _SliceView  # noqa: E402
+from crosshair.libimpl.builtinslib import SymbolicInt as _SymbolicInt   # noqa: E402
 from crosshair.tracers import frame_stack_read as _fsr, frame_stack_write as _fsw  # noqa: E402
 
 _orig_subscr_trace = _oi.SymbolicSubscriptInterceptor.trace_op
@@ -68,30 +69,33 @@ _orig_slice_trace = _oi.SymbolicSliceInterceptor.trace_op
 
 
 def _subscr_trace(self, frame, codeobj, codenum):
+    if codenum == _oi.BINARY_OP and _oi.frame_op_arg(frame) != 26:
+        return
     key = _fsr(frame, -1)
     container = _fsr(frame, -2)
     if isinstance(key, slice) and type(container) is list:
         step = key.step
-        if not (isinstance(step, _oi.CrossHairValue) or step not in (None, 1)):
+        if not isinstance(step, _oi.CrossHairValue) and step in (None, 1):
             if isinstance(key.start, _SymbolicInt) or isinstance(key.stop, _SymbolicInt):
-                snap = tuple(container)
-                _fsw(frame, -2, _SymbolicList(_SliceView(snap, 0, len(snap))))
+                _fsw(frame, -1, slice(realize(key.start), realize(key.stop), step))
                 return
     return _orig_subscr_trace(self, frame, codeobj, codenum)
 
 
 def _slice_trace(self, frame, codeobj, codenum, _concrete_index_types=(int, float, str)):
-    start = _fsr(frame, -1)
-    stop = _fsr(frame, -2)
-    if not (isinstance(start, _concrete_index_types) and isinstance(stop, _concrete_index_types)):
+    a = _fsr(frame, -1)
+    b = _fsr(frame, -2)
+    if isinstance(a, _SymbolicInt) or isinstance(b, _SymbolicInt):
         container = _fsr(frame, -3)
-        if type(container) is list and (isinstance(start, _SymbolicInt) or isinstance(stop, _SymbolicInt)):
-            snap = tuple(container)
-            _fsw(frame, -3, _SymbolicList(_SliceView(snap, 0, len(snap))))
+        if type(container) is list:
+            if isinstance(a, _SymbolicInt):
+                _fsw(frame, -1, realize(a))
+            if isinstance(b, _SymbolicInt):
+                _fsw(frame, -2, realize(b))
             return
     return _orig_slice_trace(self, frame, codeobj, codenum)
 
 
 _oi.SymbolicSubscriptInterceptor.trace_op = _subscr_trace
 _oi.SymbolicSliceInterceptor.trace_op = _slice_trace
-FIXES.append('CrossHair opcode_intercept: list[sym:sym] views a snapshot of the list instead of the live object (engine/chfix.py)')
+FIXES.append('CrossHair opcode_intercept: concrete_list[sym:sym] realises the (already clipped) bounds and takes a real list slice instead of a lazy view of the live list (engine/chfix.py)')
